@@ -176,7 +176,7 @@ class TlcResult:
         self.finished = "Model checking completed. No error has been found." in out
         self.invariant_violated = re.findall(r"Invariant (\S+) is violated", out)
         self.property_violated = ("Temporal properties were violated" in out) or bool(
-            re.findall(r"Action property (\S+) is violated", out))
+            re.findall(r"Action property (\S+) is violated", out)) or bool(re.search(r"Temporal property \S+ was violated", out))
         self.postcondition_violated = "is violated" in out and "ostcondition" in out
         self.deadlock = "Deadlock reached" in out
         self.error = (rc != 0 and not self.finished)
